@@ -20,6 +20,15 @@ theorem piece_le_resolution (L res : ℝ) (hres : 0 < res) (h : numSplits L res 
 theorem at_least_one_piece (L res : ℝ) (hL : 0 < L) (hres : 0 < res) : numSplits L res ≠ 0 :=
   numSplits_pos L res hL hres
 
+/-- vectorised lengths (`num_splits = ceil(max(length) / resolution)`): every entry's pieces add up to the entry's
+length and no piece of any entry exceeds the resolution; some positive entry gives at least one piece -/
+theorem vector_lengths (ls : List ℝ) (res : ℝ) (hres : 0 < res) (h : numSplits (vecMax ls) res ≠ 0) :
+    ∀ l ∈ ls, ((numSplits (vecMax ls) res : ℕ) : ℝ) * (l / numSplits (vecMax ls) res) = l ∧
+      l / numSplits (vecMax ls) res ≤ res := split_vector ls res hres h
+theorem vector_at_least_one_piece (ls : List ℝ) (res : ℝ) (hres : 0 < res) (l : ℝ) (hl : l ∈ ls) (hpos : 0 < l) :
+    numSplits (vecMax ls) res ≠ 0 :=
+  numSplits_pos _ res (lt_of_lt_of_le hpos (le_vecMax ls l hl)) hres
+
 /-- the model's split uses exactly `ceil(L/res)` pieces of `L/n` for drifts and quadrupoles -/
 theorem split_shape (L k1 mx my t res : ℝ) :
     Elem.split (.drift L : Elem ℝ) res = List.replicate (numSplits L res) (.drift (L / (numSplits L res : ℝ))) ∧
